@@ -87,6 +87,8 @@ func sanitize(s string) string {
 // Build renders the function for (position, form).
 func Build(pos Position, fm Form) Prog {
 	body := pos.Tmpl
+	body = strings.ReplaceAll(body, "{F4}", indent(fm.Code, 4))
+	body = strings.ReplaceAll(body, "{F3}", indent(fm.Code, 3))
 	body = strings.ReplaceAll(body, "{F2}", indent(fm.Code, 2))
 	body = strings.ReplaceAll(body, "{F1}", indent(fm.Code, 1))
 	body = strings.ReplaceAll(body, "{F}", fm.Code)
@@ -310,4 +312,81 @@ func Render(progs []Prog, rt string) Package {
 	pk.Files["cmd/run/main.go"] = "package main\n\nimport \"genmod/p\"\n\nfunc main() { p.Run() }\n"
 	pk.Files["go.mod"] = "module genmod\n\ngo 1.22\n\nrequire github.com/goose-lang/goose v0.0.0\n\nreplace github.com/goose-lang/goose => /repo\n"
 	return pk
+}
+
+// Compose nests the inner position inside the outer one (depth-3 programs).
+// Only positions without their own returns can be inner; the inner position's
+// variables are renamed so that they do not shadow the outer position's.
+func Compose(outer, inner Position) (Position, bool) {
+	if inner.Method != "" || outer.Method != "" {
+		return Position{}, false
+	}
+	body := inner.Tmpl
+	if !strings.HasSuffix(body, "\n{RET}") {
+		return Position{}, false
+	}
+	body = strings.TrimSuffix(body, "\n{RET}")
+	if strings.Contains(body, "{RET}") {
+		return Position{}, false
+	}
+	for _, v := range []string{"pi", "pj", "pn", "pv", "pk", "pb2", "ys0", "fn0"} {
+		body = replaceIdent(body, v, "q"+v[1:])
+	}
+	// the inner template becomes the outer's form; its own {F}/{F1}/{F2} stay as placeholders
+	inner1 := indentKeep(body, 1)
+	inner2 := indentKeep(body, 2)
+	t := outer.Tmpl
+	t = strings.ReplaceAll(t, "{F2}", "\x00"+inner2)
+	t = strings.ReplaceAll(t, "{F1}", "\x00"+inner1)
+	t = strings.ReplaceAll(t, "{F}", "\x00"+body)
+	t = strings.ReplaceAll(t, "\x00", "")
+	return Position{ID: outer.ID + "_x_" + inner.ID, Tmpl: t, InMapLoop: outer.InMapLoop || inner.InMapLoop}, true
+}
+
+func indentKeep(code string, tabs int) string {
+	pre := strings.Repeat("\t", tabs)
+	lines := strings.Split(code, "\n")
+	for i, l := range lines {
+		// placeholders carry their own indentation depth
+		switch strings.TrimSpace(l) {
+		case "{F}":
+			if tabs == 1 {
+				lines[i] = "{F1}"
+			} else {
+				lines[i] = "{F2}"
+			}
+			continue
+		case "{F1}":
+			if tabs == 1 {
+				lines[i] = "{F2}"
+			} else {
+				lines[i] = "{F3}"
+			}
+			continue
+		case "{F2}":
+			lines[i] = "{F3}"
+			if tabs == 2 {
+				lines[i] = "{F4}"
+			}
+			continue
+		}
+		lines[i] = pre + l
+	}
+	return strings.Join(lines, "\n")
+}
+
+func replaceIdent(s, from, to string) string {
+	var sb strings.Builder
+	i := 0
+	isId := func(c byte) bool { return c == '_' || c >= '0' && c <= '9' || c >= 'a' && c <= 'z' || c >= 'A' && c <= 'Z' }
+	for i < len(s) {
+		if strings.HasPrefix(s[i:], from) && (i == 0 || !isId(s[i-1])) && (i+len(from) >= len(s) || !isId(s[i+len(from)])) {
+			sb.WriteString(to)
+			i += len(from)
+			continue
+		}
+		sb.WriteByte(s[i])
+		i++
+	}
+	return sb.String()
 }
